@@ -34,7 +34,10 @@ CONSTANTS
     TopRes,     \* the atoms Top holds
     Roa,        \* route authorisations: <<prefix atom, origin>>
     ParentOf,   \* [Sub -> AllCA]: under which CA a name may be created
-    Ops         \* the kinds of API operations the environment uses
+    Ops,        \* the kinds of API operations the environment uses
+    ShadowRebuilt \* BOOLEAN: a successful repository synchronisation sets
+                \*   the shown list of published objects to what was sent in
+                \*   full (TRUE) or applies the difference to it (FALSE)
 
 AllCA == {Top} \cup Sub
 Roles == {"cur", "new", "old"}
@@ -60,12 +63,27 @@ VARIABLES
                 \*   revocation of the old key
     routes,     \* [AllCA -> SUBSET Roa] configured route authorisations
     pub,        \* [AllCA -> published object set] at the publication server
-    tasks       \* set of due tasks <<kind, ca>>
+    tasks,      \* set of due tasks <<kind, ca>>
+    \* the publication server's side and the status reports (C19)
+    pubknown,   \* [AllCA -> BOOLEAN] the server has a publisher for the CA
+    pst,        \* [AllCA -> [last, ents]] the CA's report about its parent:
+                \*   outcome of the most recent exchange and the resources
+                \*   the parent last said the CA is entitled to
+    rst,        \* [AllCA -> [last, same, empty]] the CA's report about its
+                \*   repository: outcome of the most recent exchange; whether
+                \*   the list of published objects it shows is what the
+                \*   server holds for it; whether that list is empty
+    kst         \* [AllCA -> outcome] the parent's report about the child's
+                \*   most recent request
 
 vars == <<exists, gone, parent, ent, cstate, iss, sus, rc, rcv, req, routes,
-          pub, tasks>>
+          pub, tasks, pubknown, pst, rst, kst>>
 
 Prefix(r) == r[1]
+
+Outcomes == {"none", "ok", "fail"}
+NoPst == [last |-> "none", ents |-> {}]
+NoRst == [last |-> "none", same |-> TRUE, empty |-> TRUE]
 
 NoCerts == [x \in Roles |-> NoRes]
 
@@ -105,6 +123,10 @@ TypeOK ==
     /\ rcv \in [AllCA -> [Roles -> SUBSET Res]]
     /\ req \in [AllCA -> SUBSET ReqKinds]
     /\ routes \in [AllCA -> SUBSET Roa]
+    /\ pubknown \in [AllCA -> BOOLEAN]
+    /\ pst \in [AllCA -> [last : Outcomes, ents : SUBSET Res]]
+    /\ rst \in [AllCA -> [last : Outcomes, same : BOOLEAN, empty : BOOLEAN]]
+    /\ kst \in [AllCA -> Outcomes]
 
 Init ==
     /\ exists = [c \in AllCA |-> c = Top]
@@ -123,6 +145,10 @@ Init ==
     /\ pub = [c \in AllCA |-> IF c = Top THEN [EmptyPub EXCEPT !.cur = TRUE]
                                          ELSE EmptyPub]
     /\ tasks = {}
+    /\ pubknown = [c \in AllCA |-> c = Top]
+    /\ pst = [c \in AllCA |-> NoPst]
+    /\ rst = [c \in AllCA |-> NoRst]
+    /\ kst = [c \in AllCA |-> "none"]
 
 SP(c) == <<"sync_parent", c>>
 SR(c) == <<"sync_repo", c>>
@@ -142,7 +168,12 @@ AddCa(c, p, R) ==
     /\ ent' = [ent EXCEPT ![c] = R]
     /\ cstate' = [cstate EXCEPT ![c] = "active"]
     /\ tasks' = tasks \cup {SP(c)}               \* ParentAdded -> SyncParent
-    /\ UNCHANGED <<gone, iss, sus, rc, rcv, req, routes, pub>>
+    \* the publisher is created with the CA; the new parent is asked for
+    \* the entitlements before it is added (ca_parent_add_or_update)
+    /\ pubknown' = [pubknown EXCEPT ![c] = TRUE]
+    /\ pst' = [pst EXCEPT ![c] = [last |-> "ok", ents |-> R]]
+    /\ kst' = [kst EXCEPT ![c] = "ok"]
+    /\ UNCHANGED <<rst, gone, iss, sus, rc, rcv, req, routes, pub>>
 
 \* ca_child_update(resources): certauth.rs process_child_update_resources.
 \* Post-save: the (local) child is told to sync (mq.rs:596-623).
@@ -152,7 +183,7 @@ ChildRes(c, R) ==
     /\ R # ent[c]
     /\ ent' = [ent EXCEPT ![c] = R]
     /\ tasks' = tasks \cup {SP(c)}
-    /\ UNCHANGED <<exists, gone, parent, cstate, iss, sus, rc, rcv, req,
+    /\ UNCHANGED <<pubknown, pst, rst, kst, exists, gone, parent, cstate, iss, sus, rc, rcv, req,
                    routes, pub>>
 
 \* The parent's side of suspending: issued certificates become suspended
@@ -168,7 +199,7 @@ ChildSuspend(c) ==
     /\ sus' = [sus EXCEPT ![c] = iss[c]]
     /\ iss' = [iss EXCEPT ![c] = NoCerts]
     /\ tasks' = tasks \cup {SR(parent[c])}
-    /\ UNCHANGED <<exists, gone, parent, ent, rc, rcv, req, routes, pub>>
+    /\ UNCHANGED <<pubknown, pst, rst, kst, exists, gone, parent, ent, rc, rcv, req, routes, pub>>
 
 \* certauth.rs process_child_unsuspend: a suspended certificate is issued
 \* again if the child's entitlement still contains its resources, with the
@@ -184,7 +215,7 @@ ChildUnsuspend(c) ==
     /\ iss' = [iss EXCEPT ![c] = UnsuspendCerts(c)]
     /\ sus' = [sus EXCEPT ![c] = NoCerts]
     /\ tasks' = IF HasSus(c) THEN tasks \cup {SR(parent[c])} ELSE tasks
-    /\ UNCHANGED <<exists, gone, parent, ent, rc, rcv, req, routes, pub>>
+    /\ UNCHANGED <<pubknown, pst, rst, kst, exists, gone, parent, ent, rc, rcv, req, routes, pub>>
 
 \* ca_child_remove: all certificates of the child are revoked and withdrawn.
 ChildRemove(c) ==
@@ -194,7 +225,8 @@ ChildRemove(c) ==
     /\ iss' = [iss EXCEPT ![c] = NoCerts]
     /\ sus' = [sus EXCEPT ![c] = NoCerts]
     /\ tasks' = IF HasCerts(c) THEN tasks \cup {SR(parent[c])} ELSE tasks
-    /\ UNCHANGED <<exists, gone, parent, rc, rcv, req, routes, pub>>
+    /\ kst' = [kst EXCEPT ![c] = "none"]         \* status_store.remove_child
+    /\ UNCHANGED <<pubknown, pst, rst, exists, gone, parent, rc, rcv, req, routes, pub>>
 
 \* ca_routes_update with one added / one removed authorisation.
 RoaAdd(c, r) ==
@@ -202,7 +234,7 @@ RoaAdd(c, r) ==
     /\ r \notin routes[c] /\ Prefix(r) \in Holdings(c)
     /\ routes' = [routes EXCEPT ![c] = @ \cup {r}]
     /\ tasks' = tasks \cup {SR(c)}
-    /\ UNCHANGED <<exists, gone, parent, ent, cstate, iss, sus, rc, rcv, req,
+    /\ UNCHANGED <<pubknown, pst, rst, kst, exists, gone, parent, ent, cstate, iss, sus, rc, rcv, req,
                    pub>>
 
 RoaDel(c, r) ==
@@ -212,7 +244,7 @@ RoaDel(c, r) ==
     \* an authorisation that had no object (prefix not held any more) leaves
     \* no event that needs publishing
     /\ tasks' = IF Prefix(r) \in Holdings(c) THEN tasks \cup {SR(c)} ELSE tasks
-    /\ UNCHANGED <<exists, gone, parent, ent, cstate, iss, sus, rc, rcv, req,
+    /\ UNCHANGED <<pubknown, pst, rst, kst, exists, gone, parent, ent, cstate, iss, sus, rc, rcv, req,
                    pub>>
 
 \* ca_keyroll_init (max age 0): keys.rs / certauth.rs process_keyroll_initiate
@@ -221,7 +253,7 @@ RollInit(c) ==
     /\ rc' = [rc EXCEPT ![c] = "roll_pending"]
     /\ req' = [req EXCEPT ![c] = @ \cup {"pend"}]
     /\ tasks' = tasks \cup {SP(c)}               \* CertificateRequested
-    /\ UNCHANGED <<exists, gone, parent, ent, cstate, iss, sus, rcv, routes,
+    /\ UNCHANGED <<pubknown, pst, rst, kst, exists, gone, parent, ent, cstate, iss, sus, rcv, routes,
                    pub>>
 
 \* ca_keyroll_activate (staging 0): the new key becomes current, everything
@@ -264,7 +296,7 @@ RollActivate(c) ==
                 ELSE IF d = parent[c]
                 THEN [pub[d] EXCEPT !.kids = Relabel(c, @), !.okids = Relabel(c, @)]
                 ELSE pub[d]]
-    /\ UNCHANGED <<exists, gone, parent, ent, cstate, routes>>
+    /\ UNCHANGED <<pubknown, pst, rst, kst, exists, gone, parent, ent, cstate, routes>>
 
 RollActivateRefused(c) ==
     /\ exists[c] /\ rc[c] = "roll_new" /\ ~CanActivate(c)
@@ -293,7 +325,15 @@ DeleteCa(c) ==
            \* (tasks of the deleted CA stay queued and are dropped when
            \* their time comes)
            /\ tasks' = tasks \cup (IF callsIn /\ hadCerts THEN {SR(p), SP(c)} ELSE {})
-    /\ UNCHANGED <<parent, ent>>
+           \* the CA's reports go with it (status_store.remove_ca), also
+           \* those about its children; its own last request is recorded by
+           \* its parent
+           /\ kst' = [d \in AllCA |->
+                        IF parent[d] = c THEN "none"
+                        ELSE IF d = c /\ callsIn THEN "ok" ELSE kst[d]]
+    /\ pst' = [pst EXCEPT ![c] = NoPst]
+    /\ rst' = [rst EXCEPT ![c] = NoRst]
+    /\ UNCHANGED <<pubknown, parent, ent>>
 
 ---------------------------------------------------------------------------
 (* Background tasks *)
@@ -386,6 +426,8 @@ SyncParentSend(c) ==
             /\ tasks' = ((tasks \ {SP(c)}) \cup wakeTasks)
                          \cup (IF doRev THEN {SR(c)} ELSE {})
                          \cup (IF revEffective THEN {SR(p), SP(c)} ELSE {})
+            /\ pst' = [pst EXCEPT ![c].last = "fail"]
+            /\ kst' = [kst EXCEPT ![c] = "fail"]
        ELSE
             /\ iss' = [(IF curChanged THEN Shrunk(c, newCur) ELSE iss) EXCEPT ![c] =
                           [iss1 EXCEPT
@@ -400,8 +442,10 @@ SyncParentSend(c) ==
                          \cup (IF ownChange THEN {SR(c)} ELSE {})
                          \* ChildKeyRevoked: the parent tells the child to sync
                          \cup (IF revEffective THEN {SP(c)} ELSE {})
+            /\ pst' = [pst EXCEPT ![c].last = "ok"]
+            /\ kst' = [kst EXCEPT ![c] = "ok"]
     /\ cstate' = [cstate EXCEPT ![c] = "active"]
-    /\ UNCHANGED <<exists, gone, parent, ent, routes, pub>>
+    /\ UNCHANGED <<pubknown, rst, exists, gone, parent, ent, routes, pub>>
 
 \* ... without open requests: get_updates_from_parent (list entitlements,
 \* keys.rs request_certs_new_entitlement)
@@ -443,7 +487,10 @@ SyncParentList(c) ==
             [] OTHER ->
                  /\ rc' = rc /\ req' = req /\ rcv' = rcv
                  /\ tasks' = (tasks \ {SP(c)}) \cup wakeTasks
-    /\ UNCHANGED <<exists, gone, parent, ent, routes, pub>>
+       \* set_parent_entitlements / set_child_success
+       /\ pst' = [pst EXCEPT ![c] = [last |-> "ok", ents |-> E]]
+       /\ kst' = [kst EXCEPT ![c] = "ok"]
+    /\ UNCHANGED <<pubknown, rst, exists, gone, parent, ent, routes, pub>>
 
 \* The parent does not know the child (any more), or the parent is gone:
 \* the exchange fails, nothing changes, the task is tried again later.
@@ -451,14 +498,16 @@ SyncParentFails(c) ==
     /\ SP(c) \in tasks /\ exists[c]
     /\ ~(parent[c] \in AllCA /\ exists[parent[c]] /\ cstate[c] # "none")
     /\ tasks' = tasks \ {SP(c)}
-    /\ UNCHANGED <<exists, gone, parent, ent, cstate, iss, sus, rc, rcv, req,
+    \* (the parent cannot record anything about a child it does not know)
+    /\ pst' = [pst EXCEPT ![c].last = "fail"]
+    /\ UNCHANGED <<pubknown, rst, kst, exists, gone, parent, ent, cstate, iss, sus, rc, rcv, req,
                    routes, pub>>
 
 \* A sync task of a CA that has been deleted meanwhile is dropped.
 SyncDropped(c) ==
     /\ ~exists[c]
     /\ \E t \in {SP(c), SR(c), RM(c)} : t \in tasks /\ tasks' = tasks \ {t}
-    /\ UNCHANGED <<exists, gone, parent, ent, cstate, iss, sus, rc, rcv, req,
+    /\ UNCHANGED <<pubknown, pst, rst, kst, exists, gone, parent, ent, cstate, iss, sus, rc, rcv, req,
                    routes, pub>>
 
 \* Task::ResourceClassRemoved: revocation requests for the keys of a
@@ -470,39 +519,102 @@ RcRemoved(c) ==
        IN  /\ iss' = IF ok THEN [iss EXCEPT ![c] = NoCerts] ELSE iss
            /\ tasks' = (tasks \ {RM(c)})
                        \cup (IF ok THEN {SR(p), SP(c)} ELSE {})
-    /\ UNCHANGED <<exists, gone, parent, ent, cstate, sus, rc, rcv, req, routes,
+           /\ LET reached == p \in AllCA /\ exists[p] /\ cstate[c] # "none"
+              IN  /\ pst' = [pst EXCEPT ![c].last = IF reached THEN "ok" ELSE "fail"]
+                  /\ kst' = IF reached THEN [kst EXCEPT ![c] = "ok"] ELSE kst
+    /\ UNCHANGED <<pubknown, rst, exists, gone, parent, ent, cstate, sus, rc, rcv, req, routes,
                    pub>>
 
 \* Task::SyncRepo: the publication server receives the difference between
 \* what it holds for the CA and the CA's object store.
+\* The CA applies the difference it sent to the list of published objects
+\* it shows (api/ca.rs RepoStatus::update_published); as long as that list
+\* is what the server holds this keeps it so.
+\* (A CA hosted next to its publication server is answered a list query
+\* even when the server has no publisher for it -- pubd/manager.rs
+\* rfc8181_message checks the publisher only for a delta --, so with nothing
+\* to publish the exchange succeeds.)
 SyncRepo(c) ==
-    /\ SR(c) \in tasks /\ exists[c]
+    /\ SR(c) \in tasks /\ exists[c] /\ (pubknown[c] \/ Obj(c) = EmptyPub)
     /\ pub' = [pub EXCEPT ![c] = Obj(c)]
     /\ tasks' = tasks \ {SR(c)}
-    /\ UNCHANGED <<exists, gone, parent, ent, cstate, iss, sus, rc, rcv, req,
+    /\ \E same \in BOOLEAN :
+          /\ (rst[c].same \/ ShadowRebuilt) => same
+          /\ (~rst[c].same /\ ~rst[c].empty /\ ~ShadowRebuilt) => ~same
+          /\ rst' = [rst EXCEPT ![c] = [last |-> "ok", same |-> same,
+                                        empty |-> Obj(c) = EmptyPub]]
+    /\ UNCHANGED <<pubknown, pst, kst, exists, gone, parent, ent, cstate, iss, sus, rc, rcv, req,
                    routes>>
+
+\* The server does not know the publisher: the exchange fails, the task is
+\* tried again later.
+SyncRepoFails(c) ==
+    /\ SR(c) \in tasks /\ exists[c] /\ ~pubknown[c] /\ Obj(c) # EmptyPub
+    /\ rst' = [rst EXCEPT ![c].last = "fail"]
+    /\ tasks' = tasks \ {SR(c)}
+    /\ UNCHANGED <<pubknown, pst, kst, exists, gone, parent, ent, cstate, iss, sus, rc, rcv, req,
+                   routes, pub>>
 
 \* the execution of one particular due task
 RunTask(t) ==
     /\ t \in tasks
     /\ \/ t[1] = "sync_parent"
           /\ (SyncParentSend(t[2]) \/ SyncParentList(t[2]) \/ SyncParentFails(t[2]))
-       \/ t[1] = "sync_repo" /\ SyncRepo(t[2])
+       \/ t[1] = "sync_repo" /\ (SyncRepo(t[2]) \/ SyncRepoFails(t[2]))
        \/ t[1] = "rc_removed" /\ RcRemoved(t[2])
        \/ /\ ~exists[t[2]]
           /\ tasks' = tasks \ {t}
-          /\ UNCHANGED <<exists, gone, parent, ent, cstate, iss, sus, rc, rcv, req,
+          /\ UNCHANGED <<pubknown, pst, rst, kst, exists, gone, parent, ent, cstate, iss, sus, rc, rcv, req,
                          routes, pub>>
 
 Task(c) ==
     \/ SyncParentSend(c) \/ SyncParentList(c) \/ SyncParentFails(c)
-    \/ SyncDropped(c) \/ RcRemoved(c) \/ SyncRepo(c)
+    \/ SyncDropped(c) \/ RcRemoved(c) \/ SyncRepo(c) \/ SyncRepoFails(c)
 
 \* The periodic refresh (ca_refresh / "bulk refresh"): every CA is told to
 \* sync with its parent.
 RefreshAll ==
     /\ tasks' = tasks \cup {SP(c) : c \in {d \in AllCA : exists[d] /\ d # Top}}
-    /\ UNCHANGED <<exists, gone, parent, ent, cstate, iss, sus, rc, rcv, req,
+    /\ UNCHANGED <<pubknown, pst, rst, kst, exists, gone, parent, ent, cstate, iss, sus, rc, rcv, req,
+                   routes, pub>>
+
+\* Task::RepublishIfNeeded: every CA whose manifests and CRLs are due
+\* re-issues them for ALL key sets of the class (current, staging, old) and
+\* gets a repository sync; a run that finds nothing due changes nothing.
+\* Task::RenewObjectsIfNeeded: every CA re-issues the route origin objects
+\* that are within the re-issue margin (-> RoasUpdated -> repository sync).
+\* Whether something is due is a matter of time; `due` says so.
+HasKeys(c) == exists[c] /\ rcv[c]["cur"] # NoRes
+Republish(due) ==
+    /\ tasks' = IF due THEN tasks \cup {SR(c) : c \in {d \in AllCA : HasKeys(d)}}
+                       ELSE tasks
+    /\ UNCHANGED <<pubknown, pst, rst, kst, exists, gone, parent, ent, cstate, iss, sus, rc, rcv, req,
+                   routes, pub>>
+Renew(due) ==
+    /\ tasks' = IF due
+                THEN tasks \cup {SR(c) : c \in {d \in AllCA : HasKeys(d) /\ VrpsFor(d, rcv[d]["cur"]) # {}}}
+                ELSE tasks
+    /\ UNCHANGED <<pubknown, pst, rst, kst, exists, gone, parent, ent, cstate, iss, sus, rc, rcv, req,
+                   routes, pub>>
+
+\* The publication server's operator removes the CA's publisher (its
+\* content goes with it) and later adds it again; "bulk sync" tells every CA
+\* to synchronise with its repository.
+PubRemove(c) ==
+    /\ exists[c] /\ pubknown[c] /\ c # Top
+    /\ pubknown' = [pubknown EXCEPT ![c] = FALSE]
+    /\ pub' = [pub EXCEPT ![c] = EmptyPub]
+    /\ rst' = [rst EXCEPT ![c].same = rst[c].empty]
+    /\ UNCHANGED <<pst, kst, exists, gone, parent, ent, cstate, iss, sus, rc, rcv, req,
+                   routes, tasks>>
+PubAdd(c) ==
+    /\ exists[c] /\ ~pubknown[c]
+    /\ pubknown' = [pubknown EXCEPT ![c] = TRUE]
+    /\ UNCHANGED <<pst, rst, kst, exists, gone, parent, ent, cstate, iss, sus, rc, rcv, req,
+                   routes, pub, tasks>>
+RepoSyncAll ==
+    /\ tasks' = tasks \cup {SR(c) : c \in {d \in AllCA : exists[d]}}
+    /\ UNCHANGED <<pubknown, pst, rst, kst, exists, gone, parent, ent, cstate, iss, sus, rc, rcv, req,
                    routes, pub>>
 
 ApiNext ==
@@ -514,6 +626,8 @@ ApiNext ==
     \/ "roll" \in Ops /\ \E c \in Sub : RollInit(c) \/ RollActivate(c)
     \/ "delete" \in Ops /\ \E c \in Sub : DeleteCa(c)
     \/ "refresh" \in Ops /\ RefreshAll
+    \/ "maintain" \in Ops /\ \E due \in BOOLEAN : Republish(due) \/ Renew(due)
+    \/ "pubops" \in Ops /\ ((\E c \in Sub : PubRemove(c) \/ PubAdd(c)) \/ RepoSyncAll)
 
 TaskNext == \E c \in AllCA : Task(c)
 
@@ -680,4 +794,26 @@ C04_PubKeysMatch ==
     \A c \in AllCA : exists[c] /\ Synced(c) =>
         /\ pub[c].new = (rc[c] = "roll_new")
         /\ pub[c].old = (rc[c] = "roll_old")
+\* C19: what the status reports say.  That the reported outcome is the one
+\* of the most recent exchange, and the entitlements those last returned, is
+\* what the actions above say (pst, rst, kst are assigned in the step of the
+\* exchange itself) and what KrillTrace binds the code to.
+\* After a successful repository synchronisation the list of published
+\* objects a CA shows is what the server holds for it:
+C19_ShadowAfterSyncStep ==
+    \A c \in AllCA :
+        (exists[c] /\ pubknown[c] /\ SR(c) \in tasks /\ SR(c) \notin tasks')
+        => rst'[c].last = "ok" /\ rst'[c].same
+C19_ShadowAfterSync == [][C19_ShadowAfterSyncStep]_vars
+\* removing a child or a CA removes the entries about it
+C19_RemovalRemoves ==
+    \A c \in AllCA :
+        /\ ~exists[c] => pst[c] = NoPst /\ rst[c] = NoRst
+        /\ (c # Top /\ cstate[c] = "none") => kst[c] = "none"
+        /\ (c # Top /\ parent[c] \in AllCA /\ ~exists[parent[c]]) => kst[c] = "none"
+\* a report never says success with entitlements the parent cannot have
+\* given, and "nothing reported yet" only before the first exchange
+C19_EntsWithinEntitlement ==
+    \A c \in Sub : exists[c] => pst[c].ents \subseteq Res
+
 =============================================================================
